@@ -12,7 +12,21 @@ mod render;
 mod watch;
 mod zf;
 
-use qvlib::Ctx;
+use qvlib::{Ctx, Local, Value};
+use std::cell::RefCell;
+use std::collections::HashSet;
+
+thread_local! {
+    static REPORTED: RefCell<HashSet<String>> = RefCell::new(HashSet::new());
+}
+
+/// Records a violation. The (possibly large) replay case is built only for
+/// the first occurrence of a key on each worker; the runner keeps the first
+/// case it receives per key and only counts the others.
+pub fn report(l: &mut Local, key: &str, case: impl FnOnce() -> Value) {
+    let first = REPORTED.with(|s| s.borrow_mut().insert(key.to_string()));
+    l.violation(key, if first { case() } else { Value::Null });
+}
 
 fn main() {
     let ctx: &'static Ctx = Box::leak(Box::new(Ctx::from_args(&["C23", "C24", "C25"])));
